@@ -224,6 +224,7 @@ func c02Program(t *rapid.T, ev *evProp, si *scalarImpl) {
 	history := []string{fmt.Sprintf("init %x %x %x", model[0], model[1], model[2])}
 	ops := []string{"SetBytes", "SetBytes", "SetInt64", "Zero", "One", "Set", "Clone", "Add", "Sub", "Neg", "Mul", "Div", "Inv", "Pick", "Add", "Sub", "Mul"}
 	nsteps := rapid.IntRange(1, 8).Draw(t, "nsteps")
+	var kept []keptEnc
 	nontrivial := false
 	var labels []string
 	ri := func(l string) int { return rapid.IntRange(0, nreg-1).Draw(t, l) }
@@ -365,6 +366,14 @@ func c02Program(t *rapid.T, ev *evProp, si *scalarImpl) {
 		}()
 		history = append(history, desc)
 		labels = append(labels, "op:"+op)
+		// encodings handed out after earlier steps are the caller's: later operations on the registers
+		// must not have changed them
+		for _, k := range kept {
+			if !bytes.Equal(k.enc, k.snap) {
+				fail(op, "after step %d (%s): the encoding %x returned by MarshalBinary after step %d now reads %x", step, desc, k.snap, k.step, k.enc)
+				copy(k.enc, k.snap)
+			}
+		}
 		// invariants on every register
 		for i := range regs {
 			enc, err := regs[i].MarshalBinary()
@@ -372,6 +381,7 @@ func c02Program(t *rapid.T, ev *evProp, si *scalarImpl) {
 				fail(op, "MarshalBinary of R%d failed: %v", i, err)
 				continue
 			}
+			kept = append(kept, keptEnc{enc, append([]byte(nil), enc...), step})
 			if len(enc) != si.Len || regs[i].MarshalSize() != si.Len {
 				fail(op, "R%d encodes to %d bytes (MarshalSize %d), ScalarLen is %d", i, len(enc), regs[i].MarshalSize(), si.Len)
 			}
@@ -396,7 +406,24 @@ func c02Program(t *rapid.T, ev *evProp, si *scalarImpl) {
 			}
 		}
 	}
+	// ... and the caller may do with them what it wants: overwriting every encoding obtained so far
+	// leaves the registers at the model's values
+	for _, k := range kept {
+		for j := range k.enc {
+			k.enc[j] ^= 0xa5
+		}
+	}
+	for i := range regs {
+		if enc, err := regs[i].MarshalBinary(); err != nil || bytesToBig(enc, si.LE).Cmp(model[i]) != 0 {
+			violationOrKnownC02(t, ev, si, "MarshalBinary", history, "after the caller overwrote the encodings it had been given, R%d = %x, model says %x", i, enc, model[i])
+		}
+	}
 	ev.Case(nontrivial, si.Name+"/"+buildFlavour+": "+strings.Join(history, "; "), append(labels, "impl:"+si.Name+"/"+buildFlavour)...)
+}
+
+type keptEnc struct {
+	enc, snap []byte
+	step      int
 }
 
 func violationOrKnownC02(t *rapid.T, ev *evProp, si *scalarImpl, op string, history []string, format string, args ...any) bool {
@@ -407,7 +434,7 @@ func violationOrKnownC02(t *rapid.T, ev *evProp, si *scalarImpl, op string, hist
 const c02Rule = "case = (scalar implementation, program of 1..8 steps over 3 registers from {SetBytes(len 0..96: empty/random/canonical/zero-padded/v+k*q/0xff../short/q/q±d), " +
 	"SetInt64(edge or random int64), Zero, One, Set, Clone, Add, Sub, Neg, Mul, Div, Inv (invertible divisors), Pick(seeded XOF, optionally behind an all-00/all-ff/q+k prefix)}), " +
 	"run in lock-step with math/big; after every step every register must encode (in ByteOrder) exactly the model residue with ScalarLen bytes and Equal must equal residue equality; " +
-	"Pick must be < q, repeatable and reproducible from exactly the bytes it consumed. non-trivial = a SetBytes whose length differs from ScalarLen, an edge int64, an adversarial stream, or a register holding 0, 1 or q-1; distinct = distinct (impl, program text)" +
+	"encodings returned after earlier steps stay unchanged and may be overwritten by the caller; Pick must be < q, repeatable and reproducible from exactly the bytes it consumed. non-trivial = a SetBytes whose length differs from ScalarLen, an edge int64, an adversarial stream, or a register holding 0, 1 or q-1; distinct = distinct (impl, program text)" +
 	" Added: the slice given to SetBytes is overwritten by the caller afterwards."
 
 func TestC02_Programs(t *testing.T) {
